@@ -38,6 +38,20 @@ import (
 var zzStrings = []string{"", "a", "b c", "a\"b", "c\\d", "line\nbreak", "tab\there", "é世", "</script>", "null", "{}", "\x01"}
 var zzKeys = []string{"k1", "zz key", "a\"b", "c\\d", "e\nf", "é", "k2", "u\x1fv", "d\x7f", "n\x00", "v\vt"}
 
+var zzOneOfSet map[string]bool
+
+func zzOneOf() map[string]bool {
+	if zzOneOfSet == nil {
+		zzOneOfSet = map[string]bool{}
+		for _, n := range strings.Split(os.Getenv("ZZ_ONEOF"), ",") {
+			if n != "" {
+				zzOneOfSet[n] = true
+			}
+		}
+	}
+	return zzOneOfSet
+}
+
 func zzFill(r *rand.Rand, v reflect.Value, depth int) {
 	switch v.Kind() {
 	case reflect.String:
@@ -98,6 +112,15 @@ func zzFill(r *rand.Rand, v reflect.Value, depth int) {
 	case reflect.Struct:
 		if v.Type() == reflect.TypeOf(time.Time{}) {
 			v.Set(reflect.ValueOf(time.Unix(int64(r.Intn(2000000000)), int64(r.Intn(1000))*1000000).UTC()))
+			return
+		}
+		if zzOneOf()[v.Type().Name()] && v.NumField() > 0 {
+			// a oneOf value holds exactly one variant
+			ch := v.Field(r.Intn(v.NumField()))
+			if f := ch.FieldByName("IsSet"); ch.Kind() == reflect.Struct && f.IsValid() {
+				f.SetBool(true)
+				zzFill(r, ch.FieldByName("Value"), depth+1)
+			}
 			return
 		}
 		if f := v.FieldByName("IsSet"); f.IsValid() && v.NumField() == 2 {
@@ -342,6 +365,14 @@ func (jf *JSONFamily) ReplayJSON(cr *CheckRun, job *EmittedJob, fl *Failure) {
 		}
 	}
 	env = append(env, "ZZ_DECLARED="+strings.Join(declared, ","))
+	var oneOfs []string
+	for n, t := range jf.Types {
+		if t != nil && t.Schema != nil && len(t.Schema.OneOf) > 0 {
+			oneOfs = append(oneOfs, n)
+		}
+	}
+	sort.Strings(oneOfs)
+	env = append(env, "ZZ_ONEOF="+strings.Join(oneOfs, ","))
 	cmd := exec.Command("go", "test", "-vet=off", "-count=1", "-timeout", "60s", "-run", "TestZZReplay", "-v", ".")
 	cmd.Dir = dir
 	cmd.Env = env
@@ -385,7 +416,7 @@ func (jf *JSONFamily) ReplayJSON(cr *CheckRun, job *EmittedJob, fl *Failure) {
 	if !strings.Contains(text, "ZZ-OK") {
 		obs = "harness did not complete: " + truncate(text, 300)
 	}
-	fl.Replay = &ReplayResult{Reproduced: false, Input: what, Observed: obs, Cmd: "go test (generated harness zz_replay_test.go in the emitted package)"}
+	fl.Replay = &ReplayResult{Reproduced: false, Input: what, Observed: obs, Cmd: "go test (generated harness zz_replay_test.go in the emitted package)", Bounded: strings.Contains(text, "ZZ-OK")}
 }
 
 // validateAgainst: a small purpose-built schema checker (required present,
